@@ -536,7 +536,7 @@ def main(run):
             force = {"use_ref": (i // 4) % 3 != 2}
             if fmt == "kitti":
                 force.update({"align": False, "correct_scale": False})
-            k_cli(run, run.case("cli", i, fmt=fmt, force=force, unequal=True))
+            k_cli(run, run.case("cli", i, fmt=fmt, force=force, unequal=True, odd_names=(i % 5 == 1)))
     for i in run.mine({"quick": 120, "thorough": 3000}[run.tier]):
         KINDS["write_archive"](run, run.case("write_archive", i))
     # malformed: defect x format x every row/column position of small files
